@@ -133,6 +133,8 @@ pub struct RefWriter<'a> {
     /// copies (each with its own content) of one "ghost" object number that no cross-reference
     /// entry names, so that copies exist for which no container and no index position is designated
     pub ghost_objects: bool,
+    /// every object stream gets its Length as an indirect object (C08: many such lengths in one file)
+    pub objstm_lengths_indirect: bool,
 }
 
 impl RefWriter<'_> {
@@ -154,7 +156,7 @@ fn is_regular(c: u8) -> bool {
 
 impl<'a> RefWriter<'a> {
     pub fn new(ch: &'a mut Choices) -> RefWriter<'a> {
-        RefWriter { ch, out: vec![], base: 0, ghost_objects: false }
+        RefWriter { ch, out: vec![], base: 0, ghost_objects: false, objstm_lengths_indirect: false }
     }
     fn pos(&self) -> usize {
         self.out.len() - self.base
@@ -813,8 +815,26 @@ impl<'a> RefWriter<'a> {
                         if let Some(p) = dp {
                             d.push((b"DecodeParms".to_vec(), p));
                         }
-                        let off = self.indirect((sid, 0), &RObj::Stream(d, enc), None);
+                        // the Length of an object stream may be an indirect (plain) object, defined before or after it
+                        let mut len_ref = None;
+                        let mut len_after = None;
+                        if self.objstm_lengths_indirect || self.ch.maybe("objstm-indirect-length", 1, 3) {
+                            let lid = (self.alloc_num(&mut next_free_num, &mut gap_nums), 0u16);
+                            w.container_ids.insert(lid.0);
+                            len_ref = Some(lid);
+                            if self.ch.rng.bool() {
+                                let loff = self.indirect(lid, &RObj::Int(enc.len() as i64), None);
+                                ents.insert(lid.0, Ent::InUse(loff, 0));
+                            } else {
+                                len_after = Some((lid, enc.len() as i64));
+                            }
+                        }
+                        let off = self.indirect((sid, 0), &RObj::Stream(d, enc), len_ref);
                         ents.insert(sid, Ent::InUse(off, 0));
+                        if let Some((lid, v)) = len_after {
+                            let loff = self.indirect(lid, &RObj::Int(v), None);
+                            ents.insert(lid.0, Ent::InUse(loff, 0));
+                        }
                         // NOT legal PDF (C08 only): a second object stream that carries the SAME header number as this
                         // one but other bodies for the same object numbers, reached through a row of its own - two
                         // containers that cannot be told apart by their number
@@ -977,6 +997,8 @@ impl<'a> RefWriter<'a> {
                     let need_w1 = (1..=8).find(|w| *w == 8 || max_f2 < (1u64 << (8 * w))).unwrap();
                     let w1 = need_w1 + if self.ch.maybe("xrefstm-wide-w1", 1, 3) { self.ch.rng.usize_below(4 - need_w1.min(3)) } else { 0 };
                     let w1 = w1.min(4).max(need_w1);
+                    // fields wider than four bytes are legal (high-order bytes zero); some producers write 8-byte offsets
+                    let w1 = if self.ch.maybe("xrefstm-w1-over-4", 1, 8) { 5 + self.ch.rng.usize_below(4) } else { w1 };
                     let all_type1 = listed.values().all(|e| matches!(e, Some(Ent::InUse(..))));
                     let w0 = if all_type1 && self.ch.maybe("xrefstm-w0-zero", 1, 2) { 0 } else { 1 + if self.ch.maybe("xrefstm-w0-two", 1, 6) { 1 } else { 0 } };
                     let max_f3 = listed
